@@ -326,7 +326,11 @@ class SBase:
         el = [cast_elem(e, src, dst, 'astype(%s)' % dst.name) for e in self.elems]
         if self.is_scalar and dst.kind == 'O':
             return el[0]          # numpy scalar .astype(object) is the python object itself
-        return new_like(self.shape, el, dst, scalar=self.is_scalar)
+        r = new_like(self.shape, el, dst, scalar=self.is_scalar)
+        if _is_forder(self):
+            core.CTX.assumed_used.add('numpy: astype keeps the column-major layout (order=K)')
+            return _to_forder(r)
+        return r
 
     # ---- indexing ----------------------------------------------------------------------
     def _check_index(self, index):
@@ -697,6 +701,15 @@ def _real_of(k, v):
 
 
 def binary(op, a, b):
+    r = _binary(op, a, b)
+    arrs = [x for x in (a, b) if isinstance(x, SArr) and x.ndim >= 2]
+    if arrs and isinstance(r, SArr) and r.ndim >= 2 and all(_is_forder(x) for x in arrs) and all(tuple(x.shape) == tuple(r.shape) for x in arrs):
+        core.CTX.assumed_used.add('numpy: elementwise results keep the column-major layout of their operands (order=K)')
+        return _to_forder(r)
+    return r
+
+
+def _binary(op, a, b):
     ka, va = _classify(a)
     kb, vb = _classify(b)
     if ka == 'other' or kb == 'other':
@@ -934,6 +947,25 @@ def _fmod(x, y):
     return core.float_result(rt, g, 'float remainder')
 
 
+def _is_forder(a):
+    """a >=2-d array whose memory layout is column-major only (NumPy's order='K' results then keep that layout)"""
+    return isinstance(a, SArr) and a.ndim >= 2 and a.idx.flags['F_CONTIGUOUS'] and not a.idx.flags['C_CONTIGUOUS']
+
+
+def _to_forder(r):
+    """the same logical array, stored column-major (what NumPy's elementwise operations / astype with the default
+    order='K' return for column-major inputs); only ravel / flatten / reshape with a non-'C' order can tell the difference"""
+    if not isinstance(r, SArr) or r.ndim < 2 or r.__class__ is not SArr:
+        return r
+    el = r.elems
+    n = len(el)
+    idx = _np.arange(n).reshape(r.shape[::-1]).T          # column-major positions
+    store = [None] * n
+    for pos, e in zip(idx.ravel().tolist(), el):           # idx.ravel() = logical (row-major) walk
+        store[pos] = e
+    return SArr(store, idx, r.dtype)
+
+
 def _finish(shape, res, dt, scalar_out):
     if scalar_out and len(shape) == 0:
         if dt.kind == 'O':
@@ -943,6 +975,13 @@ def _finish(shape, res, dt, scalar_out):
 
 
 def unary(op, a):
+    r = _unary(op, a)
+    if _is_forder(a) and isinstance(r, SArr) and tuple(r.shape) == tuple(a.shape):
+        return _to_forder(r)
+    return r
+
+
+def _unary(op, a):
     core.CTX.assumed_used.add('numpy: elementwise %s' % op)
     dt = a.dtype
     el = a.elems
